@@ -256,7 +256,11 @@ pub fn run01(ctx: &Ctx) -> i32 {
     labrun::main_lab(&P01, ctx)
 }
 pub fn run02(ctx: &Ctx) -> i32 {
-    labrun::main_lab(&P02, ctx)
+    let (tier, seed, threads) = (ctx.tier, ctx.seed, ctx.threads);
+    labrun::main_lab_with(&P02, ctx, &mut |ev, rep| {
+        let ok = super::c02b::run_histories(tier, seed, threads, ev, rep);
+        ev.set("histories_stage", serde_json::json!(if ok { "ran" } else { "harness not built" }));
+    })
 }
 pub fn run03(ctx: &Ctx) -> i32 {
     labrun::main_lab(&P03, ctx)
